@@ -184,6 +184,9 @@ def run(ctx):
     rule_r2(facts, ctx)
     c07.rule_r4(facts, ctx)   # threads joined (C05.R3)
     c04.rule_r3(facts, ctx)   # only timed waits (C05.R5)
+    from . import c09
+    c09.rule_r6(facts, ctx, rule_id="C05.R4")   # no retirement with consumed-but-uncommitted input
+    ctx.floor("C05.R4", 25, "WaitForStream-on-output verdicts of blocks that consume")
     ctx.floor("C05.R1", 10, "loop-exit obligations of the MTGraph thread closure")
     ctx.floor("C05.R2", 1, "spawn loop in MTGraph::run")
     ctx.explain("C05: classifies every way out of the per-block thread loop around dyn Block::work() by flag-sensitive "
